@@ -384,7 +384,8 @@ def process_val_weights(vals_and_weights, npartitions, dtype_info):
     if isinstance(dtype, pd.CategoricalDtype):
         rv = pd.Categorical.from_codes(rv, info[0], info[1])
     elif isinstance(dtype, pd.DatetimeTZDtype):
-        rv = pd.DatetimeIndex(rv).tz_localize(dtype.tz)
+        # the summaries hold UTC epochs
+        rv = pd.DatetimeIndex(rv).tz_localize("UTC").tz_convert(dtype.tz)
     elif "datetime64" in str(dtype):
         rv = pd.DatetimeIndex(rv, dtype=dtype)
     elif rv.dtype != dtype:
